@@ -92,7 +92,7 @@ MANIFEST = dict(
          'operation, exception classes, kills; the committed bytes are compared exactly, the first operations of the entry '
          'after an A must be close + unlink of the held temp file; next to an open second writer the word AES (left open, '
          'the open of the next entry refused, used again) at every pair of operation boundaries: no use may come back to a '
-         'temp NAME it no longer holds (this found the defect repaired by source commit 9d5716f).',
+         'temp NAME it no longer holds (this found the defect repaired by source commit b5679bd).',
     note='Trusted: Coq kernel + vm_compute, translate/c12_atomic.py (transliteration only: the symbolic execution is in '
          'the kernel; both are tied by the executed correspondences, the CPython one by sampling), the interposer in checks/c12.py (FileIO subclass + patched '
          'io.open/os.*), POSIX rename atomicity and O_EXCL (modelled, not verified), page cache surviving a process kill '
